@@ -89,7 +89,7 @@ class LoggedList(list):
 
     def __iter__(self):
         for k, x in enumerate(list.__iter__(self)):
-            self._log.append((round(sim.S.now - sim.S.t0, 6), k))
+            self._log.append(('d', k, round(sim.S.now - sim.S.t0, 6)))
             sim.S.rec('draw', k)
             yield x
 
@@ -99,7 +99,7 @@ class LoggedList(list):
 
 def logged_gen(n, kind, log):
     for k in range(n):
-        log.append((round(sim.S.now - sim.S.t0, 6), k))
+        log.append(('d', k, round(sim.S.now - sim.S.t0, 6)))
         sim.S.rec('draw', k)
         yield elem_of(kind, k)
 
@@ -147,7 +147,7 @@ def run_scenario(sc):
     except BaseException as e:  # noqa
         obs['harness_error'] = traceback.format_exc()[-2000:]
     finally:
-        obs['thread_excs'] = [(r, e) for r, e, _ in S.thread_excs][:5]
+        obs['thread_excs'] = [(r, e, tb[-700:]) for r, e, tb in S.thread_excs][:5]
         obs['steps'] = S.steps
         obs['virtual_s'] = round(S.now - S.t0, 4)
         obs['ledger'] = dict(S.ledger)
@@ -203,12 +203,27 @@ def _run(sc, S, obs):
             state = a.pop(0)
         return wid, shared_ok, state, a
 
+    stable = {}
+
     def mk_funcs(op, opi):
-        cfg = {'pass_worker_id': pool.pool_params.pass_worker_id, 'shared': pool.pool_params.shared_objects is not None,
-               'use_worker_state': pool.pool_params.use_worker_state}
-        ekind = op.get('elem', 'scalar')
-        fail = op.get('fail') or {}
-        numpy_in = op.get('input') == 'nd'
+        """user functions of operation opi.  With sc['same_func'] the SAME function objects serve every operation
+        (so that consecutive calls on a keep-alive pool compare equal) and read the current operation from `cur`."""
+        if sc.get('same_func'):
+            cur.update(op=op, opi=opi)
+            if 'f' not in stable:
+                stable['f'] = _mk_funcs(None, None)
+            return stable['f']
+        return _mk_funcs(op, opi)
+
+    cur = {}
+
+    def _mk_funcs(op_fixed, opi_fixed):
+        def ctx():
+            op = op_fixed if op_fixed is not None else cur['op']
+            opi = opi_fixed if opi_fixed is not None else cur['opi']
+            cfg = {'pass_worker_id': pool.pool_params.pass_worker_id, 'shared': pool.pool_params.shared_objects is not None,
+                   'use_worker_state': pool.pool_params.use_worker_state}
+            return op, opi, cfg, op.get('elem', 'scalar'), op.get('fail') or {}, op.get('input') == 'nd'
 
         def token():
             st = S.cur
@@ -224,6 +239,7 @@ def _run(sc, S, obs):
             return owner == tok
 
         def task(*args, **kwargs):
+            op, opi, cfg, ekind, fail, numpy_in = ctx()
             wid, shared_ok, state, rest = extras_check(args, cfg)
             t0 = S.now - S.t0
             if numpy_in:
@@ -249,6 +265,7 @@ def _run(sc, S, obs):
             return value_of(idx)
 
         def init(*args):
+            op, opi, cfg, ekind, fail, numpy_in = ctx()
             wid, shared_ok, state, rest = extras_check(args, cfg)
             tok = token()
             rec = [opi, 'init', S.cur.role, tok, wid, None, round(S.now - S.t0, 6), None, len(rest) == 0, state_check(state, tok), shared_ok]
@@ -264,6 +281,7 @@ def _run(sc, S, obs):
             rec[7] = round(S.now - S.t0, 6)
 
         def exit_(*args):
+            op, opi, cfg, ekind, fail, numpy_in = ctx()
             wid, shared_ok, state, rest = extras_check(args, cfg)
             tok = token()
             rec = [opi, 'exit', S.cur.role, tok, wid, None, round(S.now - S.t0, 6), None, len(rest) == 0, state_check(state, tok), shared_ok]
@@ -380,9 +398,8 @@ def _map_kwargs(op, init, exit_):
 
 def _do_map(pool, op, opi, o, mk_funcs, S, obs):
     task, init, exit_ = mk_funcs(op, opi)
-    draws = o['draws'] = []
-    yields = o['yields'] = []
-    data = _make_input(op, draws)
+    io_ev = o['io'] = []      # ('d', k, t) element k drawn | ('y', value, t) value handed to the consumer | ('p0'|'p1', t) consumer pause
+    data = _make_input(op, io_ev)
     kw = _map_kwargs(op, init, exit_)
     bar_out = None
     if op.get('progress_bar'):
@@ -405,13 +422,15 @@ def _do_map(pool, op, opi, o, mk_funcs, S, obs):
             k = 0
             for v in gen:
                 got.append(v)
-                yields.append((round(S.now - S.t0, 6), _res_json(v), len(draws)))
+                io_ev.append(('y', _res_json(v), round(S.now - S.t0, 6)))
                 S.rec('yield', _j(v))
                 k += 1
                 if consume != 'all' and k >= consume:
                     break
                 if pause:
+                    io_ev.append(('p0', None, round(S.now - S.t0, 6)))
                     sim.time_shim.sleep(dur_of(pause, k))
+                    io_ev.append(('p1', None, round(S.now - S.t0, 6)))
             if consume != 'all':
                 if op.get('abandon') == 'close':
                     gen.close()
